@@ -281,6 +281,12 @@ fn c01_a3_messages() {
     std::mem::forget(node);
 }
 
+// A3 on REAL syntax-tree node types (a reused Expression `( - 1 ) + a[1]` / Statement `a := 1 + 1`
+// must lose the build/semantic messages of every nested node, through the node types' own
+// traverse_mut) was tried with fixed tree shapes and a symbolic message class: the real deep Clone
+// plus recursive traverse_mut of the Box/enum trees ran out of 24 GB (statement) or of 15-20 min
+// (expression).  Not registered, not claimed; A3 is decided for the harness node type only.
+
 #[kani::proof]
 #[kani::unwind(3)]
 fn c01_a2_twin_must_fail() {
